@@ -10,6 +10,7 @@ package main
 
 import (
 	"fmt"
+	"os"
 	"go/types"
 	"sort"
 	"strings"
@@ -20,6 +21,7 @@ type secretInfo struct {
 	holders    map[string]bool // typeKey of struct types with secret fields
 	funcs      []string // symbol prefixes of secret results
 	sinks      map[string][]string // "type|Field" -> properties
+	allowed    map[string][]string // sink -> secret field keys it may depend on (onlysecret)
 	built      bool
 }
 
@@ -27,14 +29,39 @@ func (e *Engine) secretInfo() *secretInfo {
 	if e.secrets != nil {
 		return e.secrets
 	}
-	si := &secretInfo{holders: map[string]bool{}, sinks: map[string][]string{}}
+	si := &secretInfo{holders: map[string]bool{}, sinks: map[string][]string{}, allowed: map[string][]string{}}
 	e.secrets = si
+	_ = os.Getenv
 	for _, d := range e.cs.Secrets {
 		pkg := e.typesPkg(d.PkgPath)
+		if d.Kind == "onlysecret" && pkg != nil && len(d.Names) >= 1 {
+			// onlysecret T.F S.G ...: the field may depend on the listed secrets only
+			keyOf := func(n string) string {
+				tf := strings.SplitN(n, ".", 2)
+				if len(tf) != 2 {
+					return ""
+				}
+				if obj := pkg.Scope().Lookup(tf[0]); obj != nil {
+					return objKey(obj.Type(), tf[1])
+				}
+				return ""
+			}
+			sk := keyOf(d.Names[0])
+			if sk != "" {
+				si.sinks[sk] = d.Props
+				si.allowed[sk] = []string{}
+				for _, a := range d.Names[1:] {
+					if k := keyOf(a); k != "" {
+						si.allowed[sk] = append(si.allowed[sk], k)
+					}
+				}
+			}
+			continue
+		}
 		for _, n := range d.Names {
 			switch d.Kind {
 			case "secretresult":
-				si.funcs = append(si.funcs, sanitize(n)+"_r")
+				si.funcs = append(si.funcs, sanitize(n)+"_r0") // the first result is the secret (not the error)
 			case "secret", "nosecret":
 				tf := strings.SplitN(n, ".", 2)
 				if len(tf) != 2 || pkg == nil {
@@ -45,6 +72,9 @@ func (e *Engine) secretInfo() *secretInfo {
 					continue
 				}
 				key := objKey(obj.Type(), tf[1])
+				if tf[1] == "*" {
+					key = typeKey(obj.Type()) + "|" // every field
+				}
 				if d.Kind == "secret" {
 					si.fieldKeys = append(si.fieldKeys, key)
 					si.holders[typeKey(obj.Type())] = true
@@ -63,16 +93,20 @@ func keyHasPrefix(key, pre string) bool {
 		return false
 	}
 	rest := key[len(pre):]
-	return rest == "" || rest[0] == '.' || rest[0] == '#'
+	return rest == "" || rest[0] == '.' || rest[0] == '#' || strings.HasSuffix(pre, "|")
 }
 
 // taintOf returns a description of a secret the terms depend on ("" if none).
 func (x *Exec) taintOf(ts ...Term) string {
+	return x.taintOfExcept(nil, ts...)
+}
+
+func (x *Exec) taintOfExcept(allowed []string, ts ...Term) string {
 	si := x.e.secretInfo()
 	if len(si.fieldKeys) == 0 && len(si.funcs) == 0 {
 		return ""
 	}
-	free := x.c.FreeSymbols(ts...)
+	free := x.c.DataSymbols(ts...)
 	var syms []string
 	for s := range free {
 		syms = append(syms, s)
@@ -84,6 +118,15 @@ func (x *Exec) taintOf(ts ...Term) string {
 		}
 		if key, ok := x.c.origin[s]; ok {
 			for _, fk := range si.fieldKeys {
+				ok := false
+				for _, a := range allowed {
+					if a == fk {
+						ok = true
+					}
+				}
+				if ok {
+					continue
+				}
 				if keyHasPrefix(key, fk) {
 					return "secret field " + fk[strings.LastIndex(fk, "/")+1:]
 				}
@@ -91,7 +134,7 @@ func (x *Exec) taintOf(ts ...Term) string {
 		}
 		for _, f := range si.funcs {
 			if strings.HasPrefix(s, f) {
-				return "secret result " + strings.TrimSuffix(f, "_r")
+				return "secret result " + strings.TrimSuffix(f, "_r0")
 			}
 		}
 	}
@@ -136,13 +179,21 @@ func (x *Exec) sinkStore(a *Addr, v Val, reach Term, where string) {
 			}
 		}
 		sv := x.scalarize(val)
-		why := x.taintOf(sv.L...)
+		why := x.taintOfExcept(si.allowed[sk], sv.L...)
+		if why != "" && os.Getenv("GOVC_DBG") == "taint" {
+			var fs []string
+			for k := range x.c.DataSymbols(sv.L...) {
+				fs = append(fs, k)
+			}
+			sort.Strings(fs)
+			fmt.Fprintf(os.Stderr, "DBG taint %s at %s: free=%v\n", why, where, fs)
+		}
 		name := fmt.Sprintf("%s#nosecret[%s]", x.fname(), sk[strings.LastIndex(sk, "/")+1:])
 		goal := TTrue
 		text := "no value that depends on a secret is stored into this field (it is sent to the peer or persisted for sending)"
 		if why != "" {
 			goal = TFalse
-			text += "; here the stored value depends on " + why
+			where += " (the stored value depends on " + why + ")"
 		}
 		x.addObl(name, "nosecret", text, props, OblPart{NegGoal: And(reach, Not(goal)), NAssume: len(x.c.Assumes), Where: where}, false)
 	}
